@@ -4,7 +4,7 @@ use crate::abnf::Prod;
 use crate::ctx::{Case, Ctx};
 use crate::{both_families, gen};
 
-pub const RULE: &str = "cases: every path over the segment alphabet {'', a, e-acute, .., a:b} up to a segment bound x {absolute, relative} (exhaustive) driven by all 2^(n+2) front/back interleavings for n <= 10 segments (random masks beyond), plus random long paths; derived queries (segment_count, is_empty, is_absolute, first, last, file_name, directory, parent, parent_or_empty, normalized_segments().len()) compared with the '/'-split model. Non-trivial = (path, mask) with >= 2 segments for iteration, >= 1 for queries; distinct by (path, mask)";
+pub const RULE: &str = "cases: every path over the segment alphabet {'', a, e-acute, .., a:b} up to a segment bound x {absolute, relative} (exhaustive) driven by all 2^(n+2) front/back interleavings for n <= 10 segments (random masks beyond), plus random long paths; derived queries (segment_count, is_empty, is_absolute, first, last, file_name, directory, parent, parent_or_empty, normalized_segments().len()) compared with the '/'-split model. Adaptor programs: up to six steps of next/next_back/nth(k)/nth_back(k) followed by one of 32 finals (collect, last, count, rev, skip, step_by, fold, rfold, find, rfind, position, take+rest, peekable, skip_while, take_while, partition, min/max_by_key, for_each, fuse behaviour, nth past the end ...) on segments() and (&path).into_iter(), against a deque of the '/'-split. Non-trivial = (path, mask) with >= 2 segments for iteration, >= 1 for queries; distinct by (path, mask)";
 
 pub const MANDATORY: &[&str] = &["segs:0", "segs:1", "segs:2", "segs:5", "segs:13+", "kind:absolute", "kind:relative", "kind:multibyte", "kind:leading-empty", "kind:trailing-empty"];
 
